@@ -60,3 +60,6 @@ package bytesconv
 //@ trusted-pure time
 //@ trusted-pure time.Time
 //@ trusted-pure time.Location
+
+//@ trusted-pure sync.Once
+//@ trusted-pure atomic.Value
